@@ -793,3 +793,15 @@ CASES += [
                     .insert((g, f, h), if compl { res.neg() } else { res });""",
          more=[("src/builder/cache/all_app.rs", """                let r = self.table.get(&(f, g, h));""", """                let r = self.table.get(&(g, f, h));""")]),
 ]
+
+CASES += [
+    dict(name="wp3-hash-guard-asks-new-model", file=UP, rule="WP", props=["C09", "C06"], expect="WP3:one-base-state",
+         old="""                    if !self.top_state().model.is_set(clause_lit.label()) {""",
+         new="""                    if !new_model.is_set(clause_lit.label()) {"""),
+    dict(name="wp3-base-bound-to-local-ok", file=UP, rule="WP", props=["C09", "C06"], expect=None,
+         old="""                for (clause_lit, weight) in self.clauses[clause_idx].iter() {
+                    if !self.top_state().model.is_set(clause_lit.label()) {""",
+         new="""                let base = self.top_state();
+                for (clause_lit, weight) in self.clauses[clause_idx].iter() {
+                    if !base.model.is_set(clause_lit.label()) {"""),
+]
